@@ -142,10 +142,18 @@ def run_batch(engine_name, prop, base_seed, cfg, nruns, workers,
         return pc
 
     it = iter(chunks)
+    # sensitivity self-test only: stop handing out work once this many runs
+    # have violated with a signature that is not a recorded known finding
+    stop_after = int(os.environ.get('VERIF_STOP_AFTER_VIOLATIONS', '0'))
+    known = load_known() if stop_after else []
+    fresh = [0]
 
     def give(pc):
         nonlocal truncated
         if wall_budget and time.time() - t0 > wall_budget:
+            truncated = True
+            c = None
+        elif stop_after and fresh[0] >= stop_after:
             truncated = True
             c = None
         else:
@@ -190,6 +198,10 @@ def run_batch(engine_name, prop, base_seed, cfg, nruns, workers,
                 st['started'] = now
             elif kind == 'done':
                 results.append(payload)
+                v_ = payload.get('violation')
+                if stop_after and v_ and not match_known(
+                        prop, v_['signature'], known):
+                    fresh[0] += 1
                 if payload['run'] in st['left']:
                     st['left'].remove(payload['run'])
                 st['current'] = None
